@@ -3,6 +3,8 @@ CONSTANTS
   Dirs = {"launch", "a", "b"}
   Launch = "launch"
   MaxConns = 3
+  OneShot = FALSE
+  Fix_RestoreOneShot = TRUE
   Fix_RestorePerConnection = FALSE
 INVARIANT TypeOK
 INVARIANT EveryConnectionStartsInLaunchDir
